@@ -32,8 +32,49 @@ from vlib.runner import Sub, Verdict, fail
 
 PROPERTY_ID = 'C17'
 LEVEL = 'exploration'
-RULE = 'see module doc string'
-ASSUMPTIONS = []
+RULE = ('suite_contents: hierarchies = root suite (exactly.suite or main.suite; sections in any order, split, default '
+        '[cases] section) supplying contents for a random subset of conf (status, actor command/source/null, home, '
+        'act-home, preprocessor) and of setup/act/before-assert/assert/cleanup (1-3 items each: marker, failing '
+        'instruction, undefined symbol, def, symbol use, home dirs, preprocessor token, env set, env show), 1-3 cases '
+        'with own contents in random subsets, in 45 % a sub-suite (sub/exactly.suite | sub/x.suite | s2.suite; bare or '
+        'with own contents) with 1-2 cases, in 35 % an unrelated other.suite; run as suite, every case with --suite '
+        'and without, from the case directory or its parent.  Non-trivial = suite and a case both contribute to some '
+        'phase.  suite_symbols / symbol_units_matrix: 1-4 (matrix: 1) suite-level units out of 66 instruction kinds x '
+        'phases, each consuming 1-3 symbols that 2-4 cases define differently (valid values, invalid values, wrong '
+        'type, missing; defined in any phase before the unit), optionally a suite-level [act] that consumes symbols; '
+        'both orders; non-trivial = some symbol is defined by the cases and there are >= 2 cases; the matrix is the '
+        'complete product unit x symbol x adjacent value pairs (thorough: all ordered pairs, all phases).  histories: '
+        '2-5 cases of 1-8 ops (env set/unset/-of, cd, timeout, def, file, dir, shell-made file, stdin; observers: '
+        'pwd+env+sandbox listing, symbol use, exists, sleep) over the four instruction phases, conf settings, five '
+        'kinds of act, endings ok / hard error / validation error / syntax error; all orders for <= 3 cases else up to '
+        '6 (thorough 24), in 25 % split over a sub-suite; non-trivial = in some order an observing case runs after a '
+        'changing case.  distinct = distinct generated value')
+ASSUMPTIONS = [
+    'the suite run is observed through the progress reporter: `case  NAME: (T s) IDENTIFIER` lines (format taken from '
+    'observation, as in C16), last line OK / ERROR',
+    'marker lines carry the value of @[EXACTLY_TMP]@; that builtin symbols are substituted in `$` lines is relied on '
+    '(a failure there shows as a violation, never hides one)',
+    'suite_contents: `actor = command` given explicitly together with an empty [act] is accepted both as SYNTAX_ERROR '
+    '("A single PROGRAM element") and as run with the null actor (concept "actor": empty [act] => null actor); two '
+    'PROGRAM lines for the command line actor are a SYNTAX_ERROR that may be preceded by SKIPPED / VALIDATION_ERROR',
+    'suite_contents: a failing instruction in [cleanup] gives HARD_ERROR whatever happened before (`help case spec`: '
+    '"an error will be reported even if both the act and assert phases have been executed successfully")',
+    'suite_contents: combinations the manual does not describe are not judged by the model (label OUT-OF-MODEL / '
+    ':out-of-model): act lines written for another actor than the effective one, and a symbol used in [cleanup] '
+    'whose definition was jumped over after an error (the unchanged tree answers INTERNAL_ERROR there, standalone as '
+    'well as in a suite - not a C17 matter, reported to the integrator)',
+    'suite_symbols and histories are differential: the reference is the same case run standalone in the same harness '
+    'process (fresh MainProgram, cwd/environment restored by the driver); subprocess_differential compares a real OS '
+    'process with the in-process run on a sample',
+    'histories: what a case observes = pwd, `env | sort` (complete), the listing of its sandbox act/ and tmp/ '
+    'directories, the stdin of its action, values of symbols, exists-assertions, and whether a 1.5 s sleep survives '
+    '(timeout carried over from a case that set `timeout = 1`); a sleeping case never sets a timeout itself, so no '
+    'outcome depends on a race',
+    'KF-C17-1 defect model: the in-suite observation of a case equals its standalone observation after the symbols '
+    'used as `-line-nums` ranges by suite-level instructions are given the values that an EARLIER case of the same '
+    'run defined (verified by running that variant); any other difference stays a violation',
+    'error texts on stderr are not compared between the ways of running a case (the property speaks of outcomes)',
+]
 
 _CASE_RE = re.compile(r'^case +(.*): \((\d+\.\d+)s\) ([A-Z_]+)$')
 _SUITE_RE = re.compile(r'^suite (.*): (begin|end)$')
@@ -44,11 +85,14 @@ _SDS_RE = re.compile(r'/exactly-[A-Za-z0-9_-]+')
 class Run:
     """one execution of the program + what it left in {MARKERS}"""
 
-    def __init__(self, ws, argv, cwd=None, extra_env=None):
+    def __init__(self, ws, argv, cwd=None, extra_env=None, subprocess=False):
         if os.path.exists(ws.markers):
             os.remove(ws.markers)
         self.argv = list(argv)
-        self.r = driver.run_inproc(ws, argv, cwd=cwd, extra_env=extra_env)
+        if subprocess:
+            self.r = driver.run_subproc(ws, argv, cwd=cwd)
+        else:
+            self.r = driver.run_inproc(ws, argv, cwd=cwd, extra_env=extra_env)
         self.raw_markers = ws.read_markers()
         self.ws_home = ws.home
         self.ws_root = ws.root
@@ -420,7 +464,9 @@ def check_suite_symbols(case) -> Verdict:
         ws.write('exactly.suite', listing(case['orders'][0]))
         ref = {}
         for c in cases:
-            run, obs, problem = _observe_standalone(ws, [c['id'] + '.case'])
+            # the two standalone forms in turn: exactly.suite beside the case / --suite
+            argv = [c['id'] + '.case'] if len(ref) % 2 == 0 else ['--suite', 'exactly.suite', c['id'] + '.case']
+            run, obs, problem = _observe_standalone(ws, argv)
             if problem == 'timeout':
                 return Verdict(inconclusive=True, labels=labels)
             if problem:
@@ -655,6 +701,31 @@ def check_histories(case) -> Verdict:
     return Verdict(True, nontrivial=nontrivial, labels=sorted(set(labels)), sample=hi_render(case))
 
 
+# ---- a real OS process behaves like the in-process run ---------------------------------------------------------
+def check_subprocess(case) -> Verdict:
+    files = sc_files(case)
+    root = case['root']
+    labels = ['subprocess']
+    obs = []
+    with driver.Workspace() as ws:
+        ws.write_files(files)
+        for d in ('d1', 'd2', 'sub/d1', 'sub/d2'):
+            os.makedirs(os.path.join(ws.home, d), exist_ok=True)
+        for how in (False, True):
+            run = Run(ws, ['suite', root['file']], extra_env=_SC_ENV, subprocess=how)
+            if run.r.timed_out:
+                return Verdict(inconclusive=True, labels=labels)
+            events, final, problem = run.suite_events()
+            groups, problem2 = run.groups()
+            obs.append({'exit': run.r.exit_code, 'events': events, 'final': final, 'problem': problem or problem2,
+                        'markers': [['%s|%s' % l for l in lines] for _, lines in groups],
+                        'sandboxes left': run.r.sandboxes})
+    if obs[0] != obs[1]:
+        return fail('subprocess-differs-from-in-process', {'in-process': obs[0], 'subprocess': obs[1],
+                                                           'files': sc_render(case)}, labels=labels, nontrivial=True)
+    return Verdict(True, nontrivial=True, labels=labels + ['final:%s' % obs[0]['final']])
+
+
 # ---- the manual still says what the model transcribes -------------------------------------------------------------
 def check_manual(case) -> Verdict:
     with driver.Workspace() as ws:
@@ -711,4 +782,6 @@ SUBS = [
         budget={'quick': 400, 'thorough': 10000}, render=ss_render),
     Sub('histories', check_histories, strategy=lambda tier: hist.histories(tier),
         budget={'quick': 300, 'thorough': 8000}, render=hi_render),
+    Sub('subprocess_differential', check_subprocess, strategy=lambda tier: gen.suite_with_contents(),
+        budget={'quick': 32, 'thorough': 600}, render=sc_render),
 ]
